@@ -1061,8 +1061,67 @@ def run_copies(ctx):
                     break
 
 
+def run_buffers_and_long(ctx):
+    """(a) an object built from a caller-owned work buffer (float64 array, integer array, list) that is refilled afterwards still holds the value it was
+    built from: X + Y, X - Y, -X, T * X, I * X are those of the original numbers; (b) sums and differences of two equally long objects with 255 .. 300
+    values (lengths around and above CPython's small-integer cache)"""
+    import spatialmath as sm
+    T = ref.rt(ref.rotx(0.3) @ ref.roty(-0.2), (1.0, 2.0, 3.0))
+    Ad = ref.adjoint(T)
+    x0 = np.array([1.0, 2, 3, 4, 5, 6])
+    y0 = np.array([0.5, -1, 2, 0.1, 0.2, -0.3])
+    for cn in CLS:
+        Cc = getattr(sm, cn)
+        for bn, mk, refill in (('float64', lambda: x0.copy(), lambda b: b.__setitem__(slice(None), [9.0, 8, 7, 6, 5, 4])), ('int64', lambda: x0.astype('int64'), lambda b: b.__setitem__(slice(None), [9, 8, 7, 6, 5, 4])),
+                               ('list', lambda: x0.tolist(), lambda b: b.__setitem__(slice(None), [9.0, 8, 7, 6, 5, 4])), ('float32', lambda: x0.astype('float32'), lambda b: b.__setitem__(slice(None), [9.0, 8, 7, 6, 5, 4]))):
+            for how in ('ctor', 'append'):
+                cid = 'C20/buffer/%s/%s/%s' % (CODE[cn], bn, how)
+                if not ctx.want(cid):
+                    continue
+                ctx.case(cid, key=cid)
+                P = dict(op='buffer', lcls=cn, rcls=cn, buffer=bn, how=how)
+                buf = mk()
+                ok, X = call(lambda: Cc(buf))
+                if not ok:
+                    continue
+                if how == 'append':
+                    okx, _ = call(lambda: X.append(Cc(buf)))
+                    if not okx:
+                        continue
+                nval = len(X.data)
+                refill(buf)
+                Y = Cc(y0.copy())
+                ok, r = call(lambda: ([np.asarray(d, dtype=float).copy() for d in X.data], [np.asarray(d, dtype=float) for d in (-X).data], [np.asarray(d, dtype=float) for d in (sm.SE3(T.copy()) * X).data]))
+                if not ok:
+                    ctx.fail(cid, 'SpatialVector.__init__', 'raises:' + type(r).__name__, P, 'using an object whose construction buffer was refilled raised %r' % (r,))
+                    continue
+                Mx = Ad if cn in MOTION else Ad.T
+                for nm_, got, want in zip(('X itself', '-X', 'T*X'), r, ([x0] * nval, [-x0] * nval, [Mx @ x0] * nval)):
+                    if len(got) != len(want) or any(np.abs(g_ - w_).max() > 1e-6 * max(1.0, float(np.abs(w_).max())) for g_, w_ in zip(got, want)):
+                        ctx.fail(cid, 'SpatialVector.__init__', 'mismatch', dict(P, what=nm_), 'after the %s buffer the object was built from was refilled: %s is computed from the new numbers' % (bn, nm_))
+                        break
+        for N in (255, 256, 257, 258, 300):
+            for opn, of in (('add', lambda a, b: a + b), ('sub', lambda a, b: a - b)):
+                cid = 'C20/long/%s/%s/N=%d' % (CODE[cn], opn, N)
+                if not ctx.want(cid):
+                    continue
+                ctx.case(cid, key=cid)
+                X = Cc(x0.copy())
+                X.data = [x0 * (1 + 0.01 * j) for j in range(N)]
+                Y = Cc(y0.copy())
+                Y.data = [y0 - 0.5 * j for j in range(N)]
+                P = dict(op=opn, lcls=cn, rcls=cn, n=N)
+                ok, r = call(of, X, Y)
+                if not ok:
+                    ctx.fail(cid, 'SpatialVector.__%s__' % opn, 'raises:' + type(r).__name__, P, '%s of two objects of %d values raised %r' % (opn, N, r))
+                    continue
+                sg = 1 if opn == 'add' else -1
+                if type(r) is not Cc or len(r.data) != N or any(np.abs(np.asarray(g_, dtype=float) - (a_ + sg * b_)).max() > 1e-9 * 1e3 for g_, a_, b_ in zip(r.data, X.data, Y.data)):
+                    ctx.fail(cid, 'SpatialVector.__%s__' % opn, 'mismatch', P, '%s of two objects of %d values is not element-wise' % (opn, N))
+
+
 def shards(tier, seed):
-    out = [('sequences',), ('copies',)]
+    out = [('sequences',), ('copies',), ('buffers',)]
     for lcls in CLS:
         for opn in ('add', 'sub'):
             out.append(('arith', lcls, opn))
@@ -1125,6 +1184,8 @@ def run_shard(ctx, shard):
         run_info(ctx, tier, seed)
     elif kind == 'sequences':
         run_sequences(ctx, tier, seed)
+    elif kind == 'buffers':
+        run_buffers_and_long(ctx)
     elif kind == 'copies':
         run_copies(ctx)
     else:
